@@ -80,7 +80,7 @@ type c01Gen struct {
 	r      *Run
 	leaf   int
 	kinds  map[string]bool
-	skips  bool // contains a short-circuit / chain / conditional
+	skips  bool     // contains a short-circuit / chain / conditional
 	vars   []string // comprehension variables in scope (int-valued)
 	budget int
 }
